@@ -396,6 +396,31 @@ Proof.
   split; [rewrite T, T1, app_assoc; reflexivity|]. split; [apply in_or_app; right; exact Hin|]. rewrite C. auto.
 Qed.
 
+(* the reap of a child that reported its own failure, retried while interrupted: it ends with the
+   child reaped or with a failure other than an interruption *)
+Lemma waitpid_retry_spec pid fuel : forall w r status w', wf w -> 0 < pid ->
+  waitpid_retry fuel pid w = Ret (r, status) w' ->
+  wf w' /\ w_cur w' = w_cur w /\ ((r = -1 /\ 0 < pr_errno (curp w')) \/ (r = pid /\ True)).
+Proof.
+  induction fuel as [|f IH]; intros w r status w' W Hp E; cbn [waitpid_retry] in E; [discriminate|].
+  apply bind_inv in E as ([r1 st1] & w1 & E1 & E). cbv beta iota in E.
+  destruct (sys_waitpid_spec _ _ _ _ _ W Hp E1) as (W1 & C1 & [[-> He]|(-> & _)]).
+  - change (-1 <? 0) with true in E. cbv iota in E.
+    apply bind_inv in E as (e & w1' & Eg & E). apply gets_inv in Eg as [-> ->].
+    destruct (pr_errno (curp w1) =? EINTR).
+    + destruct (IH _ _ _ _ W1 Hp E) as (W' & C' & H'). split; [exact W'|]. split; [congruence|exact H'].
+    + apply ret_inv in E as [E ->]. injection E as -> ->. split; [exact W1|]. split; [exact C1|]. left. auto.
+  - destruct (Z.ltb_spec pid 0); [lia|]. apply ret_inv in E as [E ->]. injection E as -> ->.
+    split; [exact W1|]. split; [exact C1|]. right. auto.
+Qed.
+Lemma waitpid_child_spec pid w r status w' : wf w -> 0 < pid ->
+  waitpid_child pid w = Ret (r, status) w' ->
+  wf w' /\ w_cur w' = w_cur w /\ ((r = -1 /\ 0 < pr_errno (curp w')) \/ (r = pid /\ True)).
+Proof.
+  intros W Hp E. unfold waitpid_child in E. apply bind_inv in E as (nf & w0 & Eg & E). apply gets_inv in Eg as [-> ->].
+  exact (waitpid_retry_spec _ _ _ _ _ _ W Hp E).
+Qed.
+
 (* process_fork: a negative error, or the positive pid returned by the fork call it made *)
 Theorem process_fork_result except ck w r w' :
   wf w -> 0 <= w_cur w -> kp (w_cur w) ck ->
@@ -443,7 +468,7 @@ Proof.
   destruct (Z.ltb_spec 0 (if q <? 0 then 0 else decode_int (runs_bytes rs))) as [Hce|Hce].
   - (* the child reported an error: the result is negative *)
     left. apply bind_inv in E8 as ([rw stw] & w8' & Ew & E8).
-    destruct (sys_waitpid_spec _ _ _ _ _ ltac:(apply P7) Hgt Ew) as (W8 & _ & [[-> He]|(-> & _)]).
+    destruct (waitpid_child_spec _ _ _ _ _ ltac:(apply P7) Hgt Ew) as (W8 & _ & [[-> He]|(-> & _)]).
     + change (-1 <? 0) with true in E8. cbv iota in E8.
       apply bind_inv in E8 as (e & w8'' & Eg & E8). apply gets_inv in Eg as [-> ->]. apply ret_inv in E8 as [-> _].
       destruct (Z.ltb_spec (- pr_errno (curp w8')) 0); lia.
@@ -497,7 +522,7 @@ Proof.
   assert (P8 : pcpost w7 w8).
   { destruct (0 <? (if q <? 0 then 0 else decode_int (runs_bytes rs))).
     - apply bind_inv in E8 as ([rw stw] & w8' & Ew & E8).
-      pose proof (pc_run _ _ _ _ (pc_sys_waitpid _) ltac:(apply P7) Ew) as Pw.
+      pose proof (pc_run _ _ _ _ (pc_waitpid_child _) ltac:(apply P7) Ew) as Pw.
       destruct (rw <? 0).
       + apply bind_inv in E8 as (e & w8'' & Eg & E8). apply gets_inv in Eg as [-> ->]. apply ret_inv in E8 as [_ ->]. exact Pw.
       + apply ret_inv in E8 as [_ ->]. exact Pw.
@@ -551,7 +576,7 @@ Proof.
   cbv beta iota zeta in E.
   assert (P46 : pcpost w4 w6) by (eapply pcpost_trans; eassumption).
   destruct (0 <? (if q <? 0 then 0 else decode_int (runs_bytes rs))).
-  - apply bind_inv in E as ([rw stw] & w7 & E7 & E). pose proof (pc_run _ _ _ _ (pc_sys_waitpid _) ltac:(apply P6) E7) as P7.
+  - apply bind_inv in E as ([rw stw] & w7 & E7 & E). pose proof (pc_run _ _ _ _ (pc_waitpid_child _) ltac:(apply P6) E7) as P7.
     cbv beta iota in E.
     apply bind_inv in E as (r8 & w8 & E8 & E).
     assert (P8 : pcpost w7 w8).
@@ -633,7 +658,7 @@ Proof.
   destruct (Z.ltb_spec 0 (if q <? 0 then 0 else decode_int (runs_bytes rs))) as [Hce|Hce].
   - (* the child reported an error *)
     apply bind_inv in E0 as ([rw stw] & w7 & E7 & E0). cbv beta iota in E0.
-    destruct (sys_waitpid_spec _ _ _ _ _ ltac:(apply P6) Hgt E7) as (W7 & _ & Hw).
+    destruct (waitpid_child_spec _ _ _ _ _ ltac:(apply P6) Hgt E7) as (W7 & _ & Hw).
     apply bind_inv in E0 as (r8 & w8 & E8 & E0).
     assert (Hr8 : r8 < 0).
     { destruct Hw as [[-> He]|(-> & _)].
